@@ -7,6 +7,8 @@ from props_tower import replay_check
 
 
 def simple_trace(chk, spec, cfg, path, what, runs=1):
+    if not path:      # the scenario that writes this trace could not run on this tree (see vlib.UNAVAILABLE)
+        return None
     res = tlc_trace(spec, cfg, path)
     chk.traces += runs
     chk.trace_states += res["states"]
